@@ -16,6 +16,9 @@ func init() {
 		Run:   runC09,
 		Trusted: []string{"bufio.Reader returns buffered bytes before reading from the underlying connection", "io.Copy/copyBuffer deliver what Read returns, in order"},
 		Mutants: []mutant{
+			{Name: "abortive close configured on the upstream connection", File: "proxy/tcp/tcp_proxy.go", Old: "\tdefer out.Close()\n", New: "\tdefer out.Close()\n\tif tc, ok := out.(*net.TCPConn); ok {\n\t\ttc.SetLinger(0)\n\t}\n", Expect: "C09.B7"},
+			{Name: "benign: default linger restored explicitly", File: "proxy/tcp/tcp_proxy.go", Old: "\tdefer out.Close()\n", New: "\tdefer out.Close()\n\tif tc, ok := out.(*net.TCPConn); ok {\n\t\ttc.SetLinger(-1)\n\t}\n", Expect: ""},
+
 			{Name: "SNI proxy copies from the raw connection again", File: "proxy/tcp/sni_proxy.go", Old: "go cp(out, tlsReader, t.TxCounter)", New: "go cp(out, in, t.TxCounter)", Expect: "C09.B1"},
 			{Name: "ws handler discards the hijacked reader", File: "proxy/ws_handler.go", Old: "go cp(out, brw)", New: "_ = brw\n\t\tgo cp(out, in)", Expect: "C09.B1"},
 			{Name: "copyBuffer writes one byte less", File: "proxy/tcp/copy_buffer.go", Old: "nw, ew := dst.Write(buf[0:nr])", New: "nw, ew := dst.Write(buf[0 : nr-1])", Expect: "C09.B3"},
@@ -63,6 +66,22 @@ func runC09(c *Ctx) {
 		runC09B6(c, f)
 	}
 	runC09W1(c)
+	// B7: no tunnel end is configured to discard unsent data on close
+	for _, f := range c.AllFns {
+		if rootPkg(f) != c.spkg("proxy/tcp") && rootPkg(f) != c.spkg("proxy") {
+			continue
+		}
+		eachInstr(f, func(i ssa.Instruction) {
+			cc := callCommon(i)
+			if cc == nil || !strings.HasSuffix(calleeName(cc), ".SetLinger") {
+				return
+			}
+			sec, isK := constInt(cc.Args[len(cc.Args)-1])
+			c.check("C09.B7", fnKey(f)+"|SetLinger on a tunnel connection", i.Pos(), isK && sec < 0,
+				"SetLinger(n >= 0) makes Close discard data that is still queued (n == 0 sends RST at once): when the other side finishes first, the deferred Close of this connection throws away the tail of the stream — whichever side finishes first must have had all of its data delivered")
+		})
+	}
+	c.ob("C09.B7", "proxy, proxy/tcp|no linger override on tunnel connections", token.NoPos, OK, "scanned for SetLinger calls")
 }
 
 // copyStarts: go statements in f (incl. closures called via `go cp(dst, src, ...)`) with (dst, src) arguments.
